@@ -91,7 +91,12 @@ def qcheck [BEq α] (N M lw : Nat) (q : QState α) (e : Ev α) (o : Out α) : Li
               | (x, _) :: _ => if x == o.peek then [] else ["wrong-item-exposed"]
             else []
   let afl := q.afLvl.getD e.afLevel
-  let v5 := if afl ≤ N && !o.af && !(fill + afl < N) then ["af-optimistic"] else []
+  -- known corner (its own kind, computed from the stimulus): the level equals the depth — "at most N places free",
+  -- constantly true — while the almost-full register has not yet seen a non-reset push-clock edge and still shows its
+  -- reset value '0'.  Every other optimistic `af` keeps the kind `af-optimistic`.
+  let v5 := if afl ≤ N && !o.af && !(fill + afl < N) then
+              (if q.afLvl.isNone && afl == N then ["af-optimistic-level-eq-depth-before-first-push-edge"] else ["af-optimistic"])
+            else []
   let ael := q.aeLvl.getD (e.aeLevel % M)
   let v6 := if !o.ae && !(ael < fill) then ["ae-optimistic"] else []
   let v7 := match q.queue with
